@@ -274,7 +274,18 @@ func (g *Gen) orAlternatives(valKind Kind) RV {
 	items := make([]RV, 0, n)
 	builtin := []string{"string", "integer", "float", "boolean", "null", "email", "date"}
 	for i := 0; i < n; i++ {
-		switch g.Rng.IntN(4) {
+		switch g.Rng.IntN(5) {
+		case 4:
+			// rule-set with an enum list (its rule name is looked at by a loader of its own)
+			var list []RV
+			for _, it := range g.enumItemsAround(g.scalarLiteral(pick(g.Rng, []Kind{KString, KInt, KBool}))) {
+				list = append(list, LitV(it))
+			}
+			rs := []Rule{{"type", LitV(`"enum"`)}, {"enum", ListOf(list...)}}
+			if g.Rng.IntN(2) == 0 {
+				rs[0], rs[1] = rs[1], rs[0]
+			}
+			items = append(items, SetOf(rs...))
 		case 0:
 			items = append(items, LitV(Q(pick(g.Rng, builtin))))
 		case 1:
